@@ -1,4 +1,5 @@
 from __future__ import annotations
+import math
 import numpy as np
 from numpy.typing import NDArray
 
@@ -49,10 +50,11 @@ def _create_mesh(
     _max_shifts = np.asarray(max_shifts, dtype=np.float32)
     left = -shifts - _max_shifts
     right = -shifts + _max_shifts
+    # round inward so that the refined shift never leaves [-max_shifts, max_shifts]
     local_shifts = [
         [
-            int(round(max(float(shiftl), -1.0) * UPSAMPLE)),
-            int(round(min(float(shiftr), 1.0) * UPSAMPLE)),
+            int(math.ceil(max(float(shiftl), -1.0) * UPSAMPLE)),
+            int(math.floor(min(float(shiftr), 1.0) * UPSAMPLE)),
         ]
         for shiftl, shiftr in zip(left, right)
     ]
